@@ -165,8 +165,16 @@ def real_zckdl(ctx, files, wl, cfg, npairs=60, maxrs=(1, 2, 255), init_names=("a
             b = files[(bw, cfg.name())]
             a = files[(aw, cfg.name())] if aw is not None else None
             pb = zckref.parse(b)
+            variants = [(a, False)]
+            if a is not None and zckref.parse(a).data_len > 0:
+                # the old file with one stored byte flipped (header intact): the tool's own order of "copy from the old file" and
+                # "forget failed chunks" decides whether the rejected chunk is fetched
+                pa_ = zckref.parse(a)
+                x = bytearray(a); x[pa_.header_len + pa_.chunks[0].clen] ^= 0x10
+                variants.append((bytes(x), True))
             for maxr in maxrs:
-                for iname, init in [x for x in inits(a, b, pb) if x[0] in init_names]:
+              for a, dmg in variants:
+                for iname, init in [x for x in inits(a, b, pb) if x[0] in (init_names if not dmg else ("absent", "garbage"))]:
                     name = "c%d.zck" % k
                     k += 1
                     srv.files[name] = b
@@ -177,12 +185,12 @@ def real_zckdl(ctx, files, wl, cfg, npairs=60, maxrs=(1, 2, 255), init_names=("a
                         job.append("file %s %s" % (name, init.hex()))
                     args = (["-s", "old.zck"] if a is not None else []) + ["http://127.0.0.1:%d/m%d/%s" % (srv.port, maxr, name)]
                     job.append("case tool=zckdl args=%s out=%s" % (",".join(x.encode().hex() for x in args), name))
-                    meta.append((aw, a, bw, b, iname, init, maxr, name))
+                    meta.append((aw if not dmg else aw + "(one stored byte flipped)", a, bw, b, iname, init, maxr, name, dmg))
         cs = core.drv("tool", "\n".join(job) + "\n", timeout=7200)
         log = srv.take_log()
     finally:
         srv.stop()
-    for c, (aw, a, bw, b, iname, init, maxr, name) in zip(cs, meta):
+    for c, (aw, a, bw, b, iname, init, maxr, name, dmg) in zip(cs, meta):
         l = c.first("L")
         ctx.states += 1; ctx.evaluations += 1
         case = {"real": True, "a": aw, "b": bw, "init": iname, "maxr": maxr}
@@ -200,6 +208,8 @@ def real_zckdl(ctx, files, wl, cfg, npairs=60, maxrs=(1, 2, 255), init_names=("a
         if out == "ABSENT" or core.unhex(out) != b:
             ctx.violation(dict(klass, predicate="target-differs-from-new-file"), what0, case)
             continue
+        if dmg:
+            continue      # which ranges a damaged old file makes necessary is judged by the in-process scenario; here: it ends with B
         # body ranges actually served (206) must be exactly the needed extents, once
         pa = zckref.parse(a) if a is not None else None
         pb = zckref.parse(b)
